@@ -2,64 +2,98 @@
    Only theorem statements, each closed by [exact] and followed by Print Assumptions.
 
    WHAT THE THEOREMS ARE ABOUT.  [exec tr s] runs a schedule [tr] - any list of
-   "the runner makes a transition" (LRun), "SIGTERM / SIGALRM reaches the runner"
-   (LArrive) and "member i of the step's group exits on its own" (LExit i) - on the
-   composition of
-     * the runner: step_exec / step_fork / killwaitpg / killwaitpg1 / sighandler /
-       exitstatus of step-exec.c transcribed statement by statement (KillDefs.v;
-       the order of its calls, its constants and its status mapping are compared
-       with the current source on every run: C07_model_matches_source), and
+   "the runner makes a transition" (LRun), "SIGTERM reaches the runner / the
+   configured timeout expires" (LArrive 15 / 14), "member i of the step's group exits
+   on its own" (LExit i) and "the forked child has done setsid and closes its end
+   of the handshake pipe" (LUp) - on the composition of
+     * the runner: step_exec / step_fork / waiteof / killwaitpg / killwaitpg1 /
+       sighandler / exitstatus of step-exec.c transcribed statement by statement
+       (KillDefs.v), INCLUDING the handshake: waiteof polls the pipe hpolls = 1000
+       times; if the child has not closed its end by then the runner takes the
+       "process group failure" path (waitpid(pid), return error ? error : 1, no
+       alarm).  The order of its calls, its constants and its status mapping are
+       compared with the current source on every run (C07_model_matches_source),
+       the status mapping is the clang-translated one of C06 (C07_exit_mapping); and
      * a KERNEL MODEL THAT IS AN ASSUMPTION, NOT A VERIFIED FACT: the step's group
        is a finite set of processes; kill(-pgid, s) reaches every live member;
        SIGKILL kills; SIGTERM kills the members with the default disposition;
        waitpid reaps only the main process; a handled signal interrupts a blocking
        waitpid and otherwise only sets gotsig; unhandled SIGTERM ends the runner;
-       the alarm cannot fire before alarm() was called.  Delivery latency, PID
-       reuse, members leaving the group or forking during the kill,
-       uninterruptible members and a failing setsid handshake are not modelled.
-   Quantifiers: every process tree (depth, fan-out, dispositions, who can exit on
-   its own and with which code - [tree]), every timeout configuration, every
-   schedule.  No bound anywhere.  The specification ([cut_ok], [uncut_ok], [spec],
-   KillSpec.v) speaks only about what is visible from outside: how the runner
-   ended, whether the main process was reaped, who is alive, which signals the
-   runner sent, and which signal arrived when.  The claim is PARTIAL (manifest):
-   it is a theorem about this model; the model is tied to the binary by the
-   driven correspondence runs of harness/c07.py. *)
-From Robsd Require Import Exec.KillSpec Exec.KillProofs.
-From RobsdGen Require Gen_Kill.
+       SIGALRM arrives only after alarm() was called; members cannot exit before the
+       child is up.  Delivery latency, PID reuse, members leaving the group or
+       forking during the kill, uninterruptible members are not modelled; the
+       process tree is used only as the list of its members (dispositions, who can
+       exit on its own): parent/child structure has no semantics in the model.
+   Quantifiers: every process tree, every timeout configuration, every schedule.
+   No bound anywhere, no [terminated] premise: the theorems speak about every state
+   in which the runner cannot move ([rstep s = None]: it has exited, been killed, or
+   is blocked in a waitpid) and bound the number of its transitions.  The
+   specification ([cut_ok], [uncut_ok], [spec], KillSpec.v) speaks only about what is
+   visible from outside.  The claim is PARTIAL (manifest): theorems about this model;
+   the model is tied to the binary by the driven correspondence runs of harness/c07.py. *)
+From Robsd Require Import Exec.KillSpec Exec.KillProofs Exec.KillTerm Exec.KillWindows
+  Exec.KillAlarm Exec.KillWitness.
+From Robsd Require Exec.KillExit Exec.ArgvDefs Exec.ArgvSpec.
+From RobsdGen Require Gen_Kill Gen_Exec.
 Local Open Scope Z_scope.
 
-(* From "handlers installed and blocked in waitpid" on: for every tree, every schedule [tr1]
-   that brings the runner into waitpid, every signal arriving there and every continuation
-   [tr2] (further signals, members exiting on their own, any interleaving): when the runner
-   has ended it has ended by exit (not by a signal), the main process has been reaped, the
-   runner sent SIGTERM to the group and SIGKILL only against a main process ignoring SIGTERM
-   (and then nobody is left), no default-disposition member is alive, the status is 124 if
-   the last signal was the alarm and non-zero otherwise - unless the main process exited 0 by
-   itself before the kill reached it. *)
-Theorem C07_group_killed_after_handler : forall t timeout tr1 s sig s1 tr2 s',
+(* THE MAIN THEOREM.  For every tree, every schedule [tr1] that brings the runner into
+   waitpid(-pid), every event arriving there and EVERY continuation [tr2] (further signals,
+   members exiting, any interleaving, any length):
+     - the runner has made at most kbound = npolls + 6 = 56 transitions since, and still owes at
+       most kmeasure of them (bounded waits: <= 51 polls of 100 ms, then SIGKILL, one poll, exit);
+     - if it cannot move any more it has ended BY EXIT with the main process reaped, SIGTERM sent
+       to the group and SIGKILL only against a main process ignoring SIGTERM (then nobody is
+       left), no default-disposition member alive, status 124 if the last signal was the alarm
+       and non-zero otherwise - unless the main process exited 0 by itself before the kill;
+     - and it can always get there: left alone it exits within the remaining budget. *)
+Theorem C07_event_takes_group_down : forall t timeout tr1 s sig s1 tr2 s',
   exec tr1 (init_tree t timeout) = Some s -> s_pc s = PWaiting ->
-  arrive sig s = Some s1 -> exec tr2 s1 = Some s' -> terminated (s_pc s') = true ->
-  cut_ok (flatten t) (history_of s') (observe s').
-Proof. exact killed_from_waiting. Qed.
-Print Assumptions C07_group_killed_after_handler.
+  arrive sig s = Some s1 -> exec tr2 s1 = Some s' ->
+  (runs tr2 + kmeasure (s_pc s') <= kbound)%nat /\
+  (rstep s' = None -> cut_ok (flatten t) (history_of s') (observe s')) /\
+  (exists n s'', (runs tr2 + n <= kbound)%nat /\ exec (repeat LRun n) s' = Some s'' /\
+     rstep s'' = None /\ cut_ok (flatten t) (history_of s'') (observe s'')).
+Proof. exact event_takes_group_down. Qed.
+Print Assumptions C07_event_takes_group_down.
 
-(* ... and the runner does end: in the kill phase it is never blocked, every transition of
-   its own strictly decreases a measure bounded by 2 * npolls + 6 that nothing the environment
-   does can increase (bounded waits, then SIGKILL, then exit) *)
-Theorem C07_kill_phase_terminates :
-  (forall s, kill_phase (s_pc s) = true ->
-     exists s', rstep s = Some s' /\ (kmeasure (s_pc s') < kmeasure (s_pc s))%nat /\
-                (kill_phase (s_pc s') = true \/ exists c, s_pc s' = PExit c)) /\
-  (forall l s s', is_arrival l = true \/ (exists i, l = LExit i) ->
-     kill_phase (s_pc s) = true -> apply_label l s = Some s' -> s_pc s' = s_pc s) /\
-  (forall p, (kmeasure p <= 2 * npolls + 6)%nat \/ exists ph n, p = PPoll ph n /\ (npolls < n)%nat).
-Proof. exact (conj kill_phase_progress (conj kill_phase_env kmeasure_bound)). Qed.
-Print Assumptions C07_kill_phase_terminates.
+(* hence no schedule lets the runner make more than 56 transitions after the event, and one in
+   which it makes that many has brought it to its exit *)
+Theorem C07_event_bounded_runs : forall t timeout tr1 s sig s1 tr2 s',
+  exec tr1 (init_tree t timeout) = Some s -> s_pc s = PWaiting ->
+  arrive sig s = Some s1 -> exec tr2 s1 = Some s' ->
+  (runs tr2 <= kbound)%nat /\ ((kbound <= runs tr2)%nat -> terminated (s_pc s') = true) /\
+  kbound = 56%nat.
+Proof. exact event_bounded_runs. Qed.
+Print Assumptions C07_event_bounded_runs.
 
-(* Without a signal the step is never cut short: the runner sends nothing to the group, does
-   not die from a signal, nobody is dead except by its own exit, and if the runner exits the
-   main process exited on its own, was reaped, and its exit code is the runner's status. *)
+(* THE TIMEOUT.  With a positive timeout the alarm is armed whenever the runner is blocked in
+   waitpid(-pid): its expiry reaches the runner there, and then everything above holds, with
+   status 124 unless a SIGTERM arrives afterwards. *)
+Theorem C07_timeout_takes_group_down : forall t timeout tr1 s,
+  0 < timeout -> exec tr1 (init_tree t timeout) = Some s -> s_pc s = PWaiting ->
+  exists s1, arrive SIGALRM s = Some s1 /\
+    forall tr2 s', exec tr2 s1 = Some s' ->
+      (runs tr2 + kmeasure (s_pc s') <= kbound)%nat /\
+      (rstep s' = None -> cut_ok (flatten t) (history_of s') (observe s')) /\
+      (rstep s' = None -> only_alarm tr2 = true -> o_result (observe s') = RExit 124) /\
+      (exists n s'', (runs tr2 + n <= kbound)%nat /\ exec (repeat LRun n) s' = Some s'' /\
+         rstep s'' = None /\ cut_ok (flatten t) (history_of s'') (observe s'')).
+Proof. exact timeout_takes_group_down. Qed.
+Print Assumptions C07_timeout_takes_group_down.
+
+(* without a timeout (not robsd-regress, or no regress-timeout) no alarm is ever armed, no SIGALRM
+   ever reaches the runner, gotsig is never SIGALRM - in every state of every execution *)
+Theorem C07_no_timeout_no_alarm : forall t timeout tr s',
+  timeout <= 0 -> exec tr (init_tree t timeout) = Some s' ->
+  s_armed s' = false /\ s_gotsig s' <> SIGALRM /\ s_event s' <> Some SIGALRM /\ s_late s' <> Some SIGALRM.
+Proof. exact no_timeout_no_alarm. Qed.
+Print Assumptions C07_no_timeout_no_alarm.
+
+(* Without an event the step is never cut short - in EVERY state of every execution: the runner
+   sends nothing to the group, does not die from a signal, nobody is dead except by its own exit,
+   and if the runner exits the main process exited on its own, was reaped, and its exit code is
+   the runner's status (after a failed handshake: that code if it is not 0, else 1). *)
 Theorem C07_no_event_no_cut : forall t timeout tr s',
   exec tr (init_tree t timeout) = Some s' -> no_arrival tr = true ->
   h_event (history_of s') = None /\ h_late (history_of s') = None /\
@@ -78,93 +112,189 @@ Print Assumptions C07_no_event_while_running_no_cut.
 (* FULL STATEMENT for every arrival point after the fork - FALSE of the faithful model:
 
      C07_all_arrival_points : forall t timeout tr s',
-       exec tr (init_tree t timeout) = Some s' -> terminated (s_pc s') = true ->
+       exec tr (init_tree t timeout) = Some s' -> rstep s' = None ->
        spec (flatten t) (history_of s') (observe s').
 
-   Two windows refute it (D13); both were reproduced on the real robsd-exec through the sync
-   points named below and are reported by the check under these signatures:
-     sigterm-before-handler  (exec.after_fork, exec.after_sigpipe)
-     signal-before-waitpid   (exec.after_sigterm, exec.after_sigalrm, exec.before_waitpid) *)
+   Three windows refute it; all were reproduced on the real robsd-exec and are reported by the
+   check under these signatures:
+     sigterm-before-handler        (sync points exec.after_fork, exec.after_sigpipe)
+     signal-before-waitpid         (exec.after_sigterm, exec.after_sigalrm, exec.before_waitpid)
+     signal-during-group-failure   (child held before setsid for longer than waiteof's 1000 ms) *)
 Theorem C07_all_arrival_points_refuted : exists t timeout tr s',
-  exec tr (init_tree t timeout) = Some s' /\ terminated (s_pc s') = true /\
+  exec tr (init_tree t timeout) = Some s' /\ rstep s' = None /\
   ~ spec (flatten t) (history_of s') (observe s').
-Proof.
-  exact (ex_intro _ two_procs (ex_intro _ 0 (ex_intro _ [LArrive SIGTERM]
-    match window_before_handler with
-    | ex_intro _ s' (conj Hx (conj _ (conj _ (conj Ht Hn)))) => ex_intro _ s' (conj Hx (conj Ht Hn))
-    end))).
-Qed.
+Proof. exact all_points_refuted. Qed.
 Print Assumptions C07_all_arrival_points_refuted.
 
-(* window 1: SIGTERM between fork() and siginstall(SIGTERM) (also after siginstall(SIGPIPE)):
-   the runner is killed by the default action, both processes of the step stay alive, nobody
-   is reaped, nothing was sent to the group *)
+(* THE EXACT GUARD, necessary and sufficient, for every tree, timeout and schedule: in a state
+   in which the runner cannot move, the specification holds IF AND ONLY IF no event happened
+   while the step was running, or some event of the schedule reached the runner while it was
+   blocked in waitpid(-pid) ([hits_wait], a function of the schedule). *)
+Theorem C07_all_arrival_points_partial : forall t timeout tr s',
+  exec tr (init_tree t timeout) = Some s' -> rstep s' = None ->
+  (spec (flatten t) (history_of s') (observe s') <->
+   s_event s' = None \/ hits_wait tr (init_tree t timeout) = true).
+Proof. exact spec_exact. Qed.
+Print Assumptions C07_all_arrival_points_partial.
+
+(* WHO SURVIVES, for every tree, timeout and schedule, when the runner cannot move any more: if
+   the schedule hits the wait the runner has exited, the main process is reaped and no member
+   that keeps the default disposition is alive; if it does not, the runner never sent anything
+   to the group and EXACTLY the members that did not exit on their own are alive - so the
+   unconditional reading of "no default-disposition process outlives the runner" is false
+   precisely for the schedules that do not hit the wait (no event at all included). *)
+Theorem C07_survivors_exact : forall t timeout tr s',
+  exec tr (init_tree t timeout) = Some s' -> rstep s' = None ->
+  if hits_wait tr (init_tree t timeout)
+  then (exists c, o_result (observe s') = RExit c) /\ o_main (observe s') = MReaped /\
+       forall i m, nth_error (flatten t) i = Some m -> m_disp m = Default ->
+                   nth_error (o_alive (observe s')) i = Some false
+  else o_kills (observe s') = [] /\
+       forall i a, nth_error (o_alive (observe s')) i = Some a ->
+                   a = negb (nth i (h_self (history_of s')) false).
+Proof. exact survivors_exact. Qed.
+Print Assumptions C07_survivors_exact.
+
+(* WINDOW 1, universally: SIGTERM between fork() and siginstall(SIGTERM) (also after
+   siginstall(SIGPIPE)).  For every tree, every schedule before and every schedule after: the
+   runner is killed by the signal, never sends anything to the group, the main process is never
+   reaped, exactly the members that do not exit on their own stay alive; the specification is
+   violated.  Second part: the window is reachable (concrete execution). *)
 Theorem C07_sigterm_before_handler_refuted :
+  (forall t timeout tr1 s s1 tr2 s',
+     exec tr1 (init_tree t timeout) = Some s -> term_handled (s_pc s) = false ->
+     arrive SIGTERM s = Some s1 -> exec tr2 s1 = Some s' ->
+     o_result (observe s') = RKilled SIGTERM /\ o_main (observe s') <> MReaped /\
+     o_kills (observe s') = [] /\
+     (forall i a, nth_error (o_alive (observe s')) i = Some a ->
+                  a = negb (nth i (h_self (history_of s')) false)) /\
+     h_event (history_of s') <> None /\
+     ~ spec (flatten t) (history_of s') (observe s')) /\
   (exists s', exec [LArrive SIGTERM] (init_tree two_procs 0) = Some s' /\
      observe s' = mkobs (RKilled SIGTERM) MAlive [true; true] [] /\
-     h_event (history_of s') = Some SIGTERM /\ terminated (s_pc s') = true /\
-     ~ spec (flatten two_procs) (history_of s') (observe s')) /\
-  (exists s', exec [LRun; LArrive SIGTERM] (init_tree two_procs 0) = Some s' /\
-     observe s' = mkobs (RKilled SIGTERM) MAlive [true; true] [] /\
-     terminated (s_pc s') = true /\
+     h_event (history_of s') = Some SIGTERM /\ rstep s' = None /\
      ~ spec (flatten two_procs) (history_of s') (observe s')).
-Proof. exact (conj window_before_handler window_after_sigpipe). Qed.
+Proof. exact (conj window_before_handler_all witness_before_handler). Qed.
 Print Assumptions C07_sigterm_before_handler_refuted.
 
-(* window 2: a signal after the handler is installed but before waitpid is entered only sets
-   gotsig.  SIGTERM: nothing is killed, the runner returns the step's own status (here 0) with a
-   default-disposition member alive.  SIGALRM: a step that ends by itself is reported as 124 with
-   nothing killed, and a step that does not end is never timed out: the runner sits in waitpid
-   and no schedule without a further signal moves it. *)
+(* WINDOW 2, universally: an event after the handler is installed but before the runner blocks
+   in a wait (during waiteof, at exec.after_sigterm / exec.after_sigalrm / exec.before_waitpid).
+   For every tree, every schedule before, every continuation in which no further event finds the
+   runner blocked in waitpid(-pid): the signal only sets gotsig; the runner never sends anything
+   to the group and is not killed; exactly the members that do not exit on their own stay alive;
+   the runner exits only after the main process exited on its own - with exitstatus(status,
+   gotsig), i.e. 124 for the alarm, or 1 on the failure path; the specification is violated.
+   If the main process cannot exit on its own, no continuation without a further event ever ends
+   the runner: the termination request / the timeout is LOST.  Reachable (two executions). *)
 Theorem C07_signal_before_waitpid_refuted :
+  (forall t timeout tr1 s sig s1 tr2 s',
+     exec tr1 (init_tree t timeout) = Some s -> handled_not_waiting (s_pc s) = true ->
+     arrive sig s = Some s1 -> exec tr2 s1 = Some s' -> hits_wait tr2 s1 = false ->
+     o_kills (observe s') = [] /\
+     (forall i a, nth_error (o_alive (observe s')) i = Some a ->
+                  a = negb (nth i (h_self (history_of s')) false)) /\
+     (forall g, o_result (observe s') <> RKilled g) /\
+     (forall c, o_result (observe s') = RExit c ->
+        (o_main (observe s') = MReaped /\ nth 0 (h_self (history_of s')) false = true /\
+         p_st (s_main s') = Some (s_status s') /\ exit_code_ok s' c) \/
+        (o_main (observe s') <> MReaped /\ c = 1 /\ h_slow (history_of s') = true)) /\
+     h_event (history_of s') <> None /\
+     ~ spec (flatten t) (history_of s') (observe s')) /\
+  (forall t timeout tr1 s sig s1 tr2 s',
+     exec tr1 (init_tree t timeout) = Some s -> handled_not_waiting (s_pc s) = true ->
+     arrive sig s = Some s1 -> exec tr2 s1 = Some s' -> no_arrival tr2 = true ->
+     m_early (tree_main t) = None ->
+     terminated (s_pc s') = false /\ o_kills (observe s') = [] /\ h_event (history_of s') <> None) /\
   (exists s', exec lost_term_schedule (init_tree two_procs_main_exits 0) = Some s' /\
      observe s' = mkobs (RExit 0) MReaped [false; true] [] /\
-     h_event (history_of s') = Some SIGTERM /\ terminated (s_pc s') = true /\
-     ~ spec (flatten two_procs_main_exits) (history_of s') (observe s')) /\
-  (exists s', exec [LRun; LRun; LArrive SIGTERM; LRun; LRun; LRun; LExit 0; LRun; LRun]
-                (init_tree two_procs_main_exits 0) = Some s' /\
-     observe s' = mkobs (RExit 0) MReaped [false; true] [] /\
-     terminated (s_pc s') = true /\
-     ~ spec (flatten two_procs_main_exits) (history_of s') (observe s')) /\
-  (exists s', exec [LRun; LRun; LRun; LRun; LRun; LArrive SIGALRM; LRun; LExit 0; LRun; LRun]
-                (init_tree two_procs_main_exits 1) = Some s' /\
-     observe s' = mkobs (RExit 124) MReaped [false; true] [] /\
-     terminated (s_pc s') = true /\
+     h_event (history_of s') = Some SIGTERM /\ rstep s' = None /\
      ~ spec (flatten two_procs_main_exits) (history_of s') (observe s')) /\
   (exists s, exec lost_alarm_schedule (init_tree two_procs 1) = Some s /\
-     s_pc s = PWaiting /\ s_event s = Some SIGALRM /\ s_gotsig s = SIGALRM /\ s_kills s = [] /\
-     observe s = mkobs RHang MAlive [true; true] [] /\
-     forall tr s', no_arrival tr = true -> exec tr s = Some s' -> s' = s).
+     s_pc s = PWaiting /\ s_event s = Some SIGALRM /\ s_gotsig s = SIGALRM /\
+     observe s = mkobs RHang MAlive [true; true] [] /\ rstep s = None).
 Proof.
-  exact (conj window_before_waitpid (conj window_after_sigterm
-          (conj window_alarm_before_waitpid window_lost_alarm))).
+  exact (conj window_before_wait_all (conj window_lost_event_all
+          (conj witness_before_waitpid witness_lost_alarm))).
 Qed.
 Print Assumptions C07_signal_before_waitpid_refuted.
 
-(* what remains true for every arrival point: if the first signal of the schedule (if there is
-   one) does not reach the runner before it has entered waitpid, the specification holds in
-   every final state - [cut_ok] if a signal arrived while the step was running, [uncut_ok] if
-   none did *)
-Theorem C07_all_arrival_points_partial : forall t timeout tr s',
-  exec tr (init_tree t timeout) = Some s' -> guarded tr (init_tree t timeout) = true ->
-  terminated (s_pc s') = true -> spec (flatten t) (history_of s') (observe s').
-Proof. exact all_points_partial. Qed.
-Print Assumptions C07_all_arrival_points_partial.
+(* the alarm can reach the runner before it waits only at exec.before_waitpid (after alarm()) -
+   or, as an unnoticed expiry, on the failure path *)
+Theorem C07_alarm_window : forall t timeout tr s s1,
+  exec tr (init_tree t timeout) = Some s -> early (s_pc s) = true -> waiting (s_pc s) = false ->
+  arrive SIGALRM s = Some s1 ->
+  (s_pc s = PBeforeWait /\ s1 = record_sig SIGALRM s) \/
+  ((s_pc s = PGroupFail \/ s_pc s = PFailWaiting) /\ s1 = note_expiry s).
+Proof. exact alarm_window. Qed.
+Print Assumptions C07_alarm_window.
+
+(* WINDOW 3, universally: the handshake has failed (the step's group was not there within
+   waiteof's 1000 ms) and the runner is blocked in waitpid(pid, &status, 0).  For every tree and
+   every schedule before and after: SIGTERM makes the runner return 1 after ONE more transition,
+   without ever sending anything to the group; the main process is not reaped, exactly the
+   members that do not exit on their own stay alive; the specification is violated.  And on
+   that path the timeout is never armed: its expiry changes nothing in the runner.  Reachable
+   (three executions: SIGTERM; expiry of the timeout; and - without any event - a step that
+   completes with 0 reported as 1, which the specification accepts as "handshake failure"). *)
+Theorem C07_signal_during_group_failure_refuted :
+  (forall t timeout tr1 s s1 tr2 s',
+     exec tr1 (init_tree t timeout) = Some s -> s_pc s = PFailWaiting ->
+     arrive SIGTERM s = Some s1 -> exec tr2 s1 = Some s' ->
+     (runs tr2 <= 1)%nat /\
+     (rstep s' = None -> o_result (observe s') = RExit 1) /\
+     o_main (observe s') <> MReaped /\ o_kills (observe s') = [] /\
+     (forall i a, nth_error (o_alive (observe s')) i = Some a ->
+                  a = negb (nth i (h_self (history_of s')) false)) /\
+     h_event (history_of s') <> None /\ h_slow (history_of s') = true /\
+     ~ spec (flatten t) (history_of s') (observe s')) /\
+  (forall t timeout tr s,
+     exec tr (init_tree t timeout) = Some s -> s_slow s = true ->
+     s_armed s = false /\
+     forall s1, arrive SIGALRM s = Some s1 ->
+       s1 = note_expiry s /\ s_pc s1 = s_pc s /\ s_gotsig s1 = s_gotsig s /\ s_kills s1 = s_kills s) /\
+  (exists s', exec group_failure_schedule (init_tree two_procs 0) = Some s' /\
+     observe s' = mkobs (RExit 1) MAlive [true; true] [] /\
+     history_of s' = mkhist (Some SIGTERM) None [false; false] true /\ rstep s' = None /\
+     ~ spec (flatten two_procs) (history_of s') (observe s')) /\
+  (exists s s1, exec (to_fail_wait ++ [LUp]) (init_tree two_procs 1) = Some s /\
+     s_pc s = PFailWaiting /\ s_armed s = false /\
+     arrive SIGALRM s = Some s1 /\
+     observe s1 = mkobs RHang MAlive [true; true] [] /\ h_event (history_of s1) = Some SIGALRM /\
+     rstep s1 = None /\ ~ spec (flatten two_procs) (history_of s1) (observe s1)) /\
+  (exists s', exec (to_fail_wait ++ [LUp; LExit 0; LRun; LRun]) (init_tree two_procs_main_exits 0) = Some s' /\
+     observe s' = mkobs (RExit 1) MReaped [false; true] [] /\
+     history_of s' = mkhist None None [true; false] true /\
+     spec (flatten two_procs_main_exits) (history_of s') (observe s')).
+Proof.
+  exact (conj window_group_failure_all (conj slow_never_armed
+          (conj witness_group_failure (conj witness_unarmed_timeout witness_group_failure_status)))).
+Qed.
+Print Assumptions C07_signal_during_group_failure_refuted.
 
 (* the reason for the "unless" in the status clause: SIGTERM interrupts the wait, the main
    process exits 0 by itself before the kill reaches it, the runner (correctly) reports 0 *)
 Theorem C07_status_zero_is_reachable :
-  exists s', exec [LRun; LRun; LRun; LRun; LRun; LArrive SIGTERM; LExit 0; LRun; LRun; LRun; LRun]
+  exists s', exec (to_wait 0 ++ [LArrive SIGTERM; LExit 0; LRun; LRun; LRun; LRun])
                (init_tree two_procs_main_exits 0) = Some s' /\
     observe s' = mkobs (RExit 0) MReaped [false; false] [SIGTERM] /\
     spec (flatten two_procs_main_exits) (history_of s') (observe s').
 Proof. exact status_zero_after_term. Qed.
 Print Assumptions C07_status_zero_is_reachable.
 
-(* the oracle the harness applies to what the real robsd-exec did is the specification *)
+(* the oracle the harness applies to what the real robsd-exec did is the specification ... *)
 Theorem C07_oracle_reflects_spec : forall ms h o, spec_okb ms h o = true <-> spec ms h o.
 Proof. exact spec_okb_iff. Qed.
 Print Assumptions C07_oracle_reflects_spec.
+
+(* ... and applied to the MODEL it accepts a state of rest of any execution exactly under the
+   guard of C07_all_arrival_points_partial: every oracle failure on the implementation that the
+   model reproduces is one of the windows, every other one is a disagreement with the model *)
+Theorem C07_oracle_on_model : forall t timeout tr s',
+  exec tr (init_tree t timeout) = Some s' -> rstep s' = None ->
+  (spec_okb (flatten t) (history_of s') (observe s') = true <->
+   s_event s' = None \/ hits_wait tr (init_tree t timeout) = true).
+Proof. exact oracle_on_model. Qed.
+Print Assumptions C07_oracle_on_model.
 
 (* whatever the script interpreter of the correspondence driver produces is the end of an
    execution, so every model answer compared with the implementation is an instance of the
@@ -174,12 +304,23 @@ Theorem C07_interpreter_sound : forall script s,
 Proof. exact interp_reachable. Qed.
 Print Assumptions C07_interpreter_sound.
 
+(* ONE exit-status mapping: the model's exitstatus is, for every pair of integers, C06's
+   specification and the value of the clang-translated step-exec.c:exitstatus *)
+Theorem C07_exit_mapping :
+  (forall st g, KillDefs.exitstatus st g = ArgvSpec.exit_spec st g) /\
+  (forall st g, ArgvDefs.exit_of_wait st g = Some (KillDefs.exitstatus st g)) /\
+  KillDefs.SIGALRM = Gen_Exec.sigalrm /\ Gen_Kill.ex_timeout = 124.
+Proof. exact KillExit.kill_exit_mapping. Qed.
+Print Assumptions C07_exit_mapping.
+
 (* the model transcribes step-exec.c as it is now: call order per function (handler
-   installation after the fork, setsid in the child, kill(-pgid), waitpid flags, SIGKILL
-   escalation, *status = 1, the status mapping) and the constants *)
+   installation after the fork, setsid in the child, the handshake and its failure path,
+   kill(-pgid), waitpid flags, SIGKILL escalation, *status = 1, the status mapping) and the
+   constants *)
 Theorem C07_model_matches_source :
   (Gen_Kill.calls_step_exec = model_calls_step_exec /\
    Gen_Kill.calls_exitstatus = model_calls_exitstatus /\
+   Gen_Kill.calls_waiteof = model_calls_waiteof /\
    Gen_Kill.calls_killwaitpg = model_calls_killwaitpg /\
    Gen_Kill.calls_killwaitpg1 = model_calls_killwaitpg1 /\
    Gen_Kill.calls_siginstall = model_calls_siginstall /\
@@ -187,25 +328,27 @@ Theorem C07_model_matches_source :
    Gen_Kill.calls_step_fork = model_calls_step_fork /\
    Gen_Kill.calls_step_timeout = model_calls_step_timeout) /\
   (Gen_Kill.ex_timeout = 124 /\ Gen_Kill.kill_timeout_ms = 5000 /\ Gen_Kill.kill_poll_ms = 100 /\
-   npolls = 50%nat).
+   npolls = 50%nat /\
+   Gen_Kill.pipe_timeout_ms = 1000 /\ Gen_Kill.pipe_poll_ms = 1 /\ hpolls = 1000%nat).
 Proof. exact (conj tie_calls tie_constants). Qed.
 Print Assumptions C07_model_matches_source.
 
 (* non-vacuity: a main process that ignores SIGTERM with a default child (which has an ignoring
    child of its own) and a second child that could exit with 3; SIGTERM arrives while the runner
-   is blocked in waitpid; 50 polls, SIGKILL, reaped: exit 137, nobody left *)
+   is blocked in waitpid; 51 polls, SIGKILL, reaped at the first poll: 56 transitions, exit 137,
+   nobody left *)
 Example C07_example :
   let t := Node Ignore None [Node Default None [Node Ignore None []]; Node Default (Some 3) []] in
-  match exec (repeat LRun 5) (init_tree t 0) with
+  match exec (to_wait 0) (init_tree t 0) with
   | Some s =>
       match arrive SIGTERM s with
       | Some s1 =>
           match exec (repeat LRun 56) s1 with
-          | Some s' => (s_pc s, terminated (s_pc s'), Some (observe s'))
-          | None => (s_pc s, false, None)
+          | Some s' => (s_pc s, rstep s', Some (observe s'))
+          | None => (s_pc s, None, None)
           end
-      | None => (s_pc s, false, None)
+      | None => (s_pc s, None, None)
       end
-  | None => (PForked, false, None)
-  end = (PWaiting, true, Some (mkobs (RExit 137) MReaped [false; false; false; false] [SIGTERM; SIGKILL])).
+  | None => (PForked, None, None)
+  end = (PWaiting, None, Some (mkobs (RExit 137) MReaped [false; false; false; false] [SIGTERM; SIGKILL])).
 Proof. vm_compute. reflexivity. Qed.
